@@ -3,6 +3,7 @@ import Pycoin.Model.BIP32
 import Pycoin.Model.Electrum
 import Pycoin.Gen.Curves
 import Pycoin.Gen.Networks
+import Pycoin.Spec.BIP32
 /-!
 C09 ops.
 
@@ -105,6 +106,33 @@ def showWallet (w : Wallet) : String :=
   s!" {w.publicPair.1},{w.publicPair.2} " ++
   (match w.masterPublicKey with | .ok b => hx b | .error e => "!" ++ e.tag)
 
+/-- the BIP32 *specification* (`Spec/BIP32.lean`) read over the executable curve model: used by `bip32_spec` only, to
+validate the specification against the BIP's test vectors and against the implementation -/
+def execCrypto : Pycoin.Spec.BIP32.Crypto Curve.Pt where
+  n := gen.c.n
+  point k := match gen.mul (k : Int) with | .ok p => p | .error _ => none
+  add P Q := match Curve.add gen.c P Q with | .ok r => r | .error _ => none
+  inf := none
+  serP := fun P => match P with
+    | none => []
+    | some pp => match publicPairToSec pp with | .ok b => b | .error _ => []
+  hmacSha512 := Hash.hmacSha512
+  hash160 := Hash.hash160
+
+open Pycoin.Spec.BIP32 in
+/-- fold CKDpriv (private chain) or CKDpub (public chain) of the specification along full child numbers -/
+def specChain (priv : Bool) : ExtKey Curve.Pt → List Nat → Result (ExtKey Curve.Pt)
+  | e, [] => .ok e
+  | e, i :: rest =>
+    let next : Result (ExtKey Curve.Pt) :=
+      match e.key with
+      | .inl k => if priv then childPriv execCrypto e k i else .failure
+      | .inr K => childPub execCrypto e K i
+    match next with
+    | .ok e' => specChain priv e' rest
+    | .invalid => .invalid
+    | .failure => .failure
+
 def withNode (tok : String) (f : Node → String) : Option String :=
   match parseNode? tok with
   | none => none
@@ -176,6 +204,45 @@ def handle : Handler := fun op args =>
       match subkeys gen fuel n range with
       | .ok l => "ok " ++ ";".intercalate (l.map showNode)
       | .error e => "err " ++ e.tag
+  -- `bip32.py` called directly with a generator whose `order()` is `n` (a stub in the harness): makes the retry loop
+  -- of `subkey_secret_exponent_chain_code_pair` reachable (`I_L ≥ n` about half of the time for `n ≈ 2²⁵⁵`)
+  | "bip32_ckdraw", [n, se, cc, i, h, pp] => do
+    let n ← parseNat? n; let se ← parseInt? se; let cc ← parseHex? cc; let i ← parseInt? i; let h ← parseBool? h
+    let pp ← parsePair? pp
+    let g' : Gen := { gen with c := { gen.c with n := n } }
+    some (showR (fun (r : Int × Bytes) => s!"{r.1} {hx r.2}") (subkeySecretExponentChainCodePair g' fuel se cc i h pp))
+  | "bip32_ckdpubraw", [n, pp, cc, i] => do
+    let n ← parseNat? n; let cc ← parseHex? cc; let i ← parseInt? i; let pp ← parsePair? pp
+    let g' : Gen := { gen with c := { gen.c with n := n } }
+    some (showR (fun (r : (Int × Int) × Bytes) => s!"{r.1.1},{r.1.2} {hx r.2}") (subkeyPublicPairChainCodePair g' pp cc i))
+  | "bip32_spec", [net, k, seed, idxs, pubFirst] => do
+    let net ← findNet? net
+    let k ← parseKind? k; let seed ← parseHex? seed; let idxs ← parseList? parseNat? idxs; let pubFirst ← parseBool? pubFirst
+    match Pycoin.Spec.BIP32.master execCrypto seed with
+    | none => some "invalid"
+    | some x =>
+      let m : Pycoin.Spec.BIP32.ExtKey Curve.Pt := Pycoin.Spec.BIP32.masterKey x
+      let root : Pycoin.Spec.BIP32.ExtKey Curve.Pt :=
+        if pubFirst then { m with key := .inr (execCrypto.point x.k) } else m
+      match specChain (!pubFirst) root idxs with
+      | .invalid => some "invalid"
+      | .failure => some "failure"
+      | .ok e =>
+        let text (ver : Option Bytes) (e : Pycoin.Spec.BIP32.ExtKey Curve.Pt) : String :=
+          match ver with
+          | none => "!TypeError"
+          | some v =>
+            match Base58.b2aHashed (Pycoin.Spec.BIP32.serialize execCrypto v e) with
+            | .ok t => hx t
+            | .error _ => "!EncodingError"
+        let pubE : Pycoin.Spec.BIP32.ExtKey Curve.Pt :=
+          match e.key with
+          | .inl kk => { e with key := .inr (execCrypto.point kk) }
+          | .inr _ => e
+        let prvT := match e.key with
+          | .inl _ => text (parsePrefix net k true) e
+          | .inr _ => "-"
+        some s!"ok {prvT} {text (parsePrefix net k false) pubE}"
   | "electrum_new", [w] => do
     some (showR showWallet (Electrum.mkWallet gen (← parseWalletArg? w)))
   | "electrum_subkey", [w, path, pubFirst] => do
